@@ -114,6 +114,28 @@ def gen(rng, tier):
                             "G": {"imports": [], "values": [("x", ("obj", [("b", ("num", "2")), ("w", ("obj", [("b", ("num", "2"))]))]))]},
                             "D": {"imports": [(m, True) for m in order], "values": []}}
                     cases.append(G.case_from_graph(envs, "D"))
+    # own values of the root that are ALIASES (a reference to a base-less own object, a read of imports.<x>) placed on a
+    # key where a merged import holds an object, nested one to three levels: the alias must merge key-wise like a literal
+    for depth in (1, 2, 3):
+        for form in range(4):
+            inner_imp = nest(("obj", [("host", ("str", "h")), ("port", ("num", "1"))]), 0)
+            inner_own = ("obj", [("user", ("str", "u"))])
+            imp_val, own_val = inner_imp, inner_own
+            for k in ["db", "conn", "z"][:depth - 1][::-1]:
+                imp_val, own_val = ("obj", [(k, imp_val), ("keep", ("num", "1"))]), ("obj", [(k, own_val)])
+            envs = {"A": {"imports": [], "values": [("cfg", imp_val), ("other", ("num", "1"))]},
+                    "M": {"imports": [], "values": [("part", own_val)]}}
+            if form == 0:
+                root = {"imports": [("A", True)], "values": [("src", own_val), ("cfg", ("sym", [("name", "src")]))]}
+            elif form == 1:
+                root = {"imports": [("A", True), ("M", False)], "values": [("cfg", ("sym", [("name", "imports"), ("name", "M"), ("name", "part")]))]}
+            elif form == 2:
+                root = {"imports": [("M", False), ("A", True)], "values": [("cfg", ("sym", [("name", "imports"), ("name", "M"), ("name", "part")])),
+                                                                            ("other", ("sym", [("name", "imports"), ("name", "A"), ("name", "cfg")]))]}
+            else:
+                root = {"imports": [("A", True)], "values": [("zsrc", own_val), ("cfg", ("sym", [("name", "zsrc")])), ("cfg2", ("sym", [("name", "zsrc")]))]}
+            envs["R"] = root
+            cases.append(G.case_from_graph(envs, "R"))
     # random graphs
     ngraphs = 1500 if thorough else 220
     for _ in range(ngraphs):
